@@ -11,6 +11,7 @@ import itertools
 import json
 import os
 import shutil
+import sys
 import time
 import atexit
 
@@ -259,12 +260,34 @@ def in_order(evs):
 
 
 # ---- evaluation -----------------------------------------------------------------------------------
+REQUIRES = ["KV.Rsp09.Model", "KV.Rsp09.Spec", "KV.Rsp09.Run"]
+
+
+def _infra_error(r):
+    """a coqc shard that was killed by its timeout or lost its scratch file: machine trouble, not a verdict"""
+    return isinstance(r, tuple) and len(r) == 2 and r[0] == "ERROR" and (
+        "rc=124" in str(r[1]) or "[timeout after" in str(r[1]) or "No such file or directory" in str(r[1]))
+
+
+def run_model_retry(ctx, exprs, chunk=None):
+    res = ctx.run_model("Rsp09", REQUIRES, exprs, preamble="Open Scope N_scope.", chunk=chunk, timeout=1800)
+    bad = [i for i, r in enumerate(res) if _infra_error(r)]
+    if bad:
+        ctx.log("model evaluation timed out on %d cases (overloaded machine?); retrying them in small shards" % len(bad))
+        again = ctx.run_model("Rsp09", REQUIRES, [exprs[i] for i in bad], preamble="Open Scope N_scope.", chunk=50, timeout=3600)
+        for i, r in zip(bad, again):
+            res[i] = r
+        if any(_infra_error(r) for r in again):
+            print("[C09] model evaluation could not be completed (coqc timeouts; infrastructure error, not a verdict)")
+            sys.exit(2)
+    return res
+
+
 def evaluate(ctx, binpath, cases, stream, chunk=None):
     t0 = time.time()
     impl = ctx.run_impl(binpath, cases)
     t1 = time.time()
-    model = ctx.run_model("Rsp09", ["KV.Rsp09.Model", "KV.Rsp09.Spec", "KV.Rsp09.Run"], [case_expr(c) for c in cases],
-                          preamble="Open Scope N_scope.", chunk=chunk)
+    model = run_model_retry(ctx, [case_expr(c) for c in cases], chunk)
     st = dict(cases=len(cases), impl_model_mismatches=0, spec_violations=0, firings=0, empty_firings=0,
               closings_judged=0, gap_class_skipped=0, no_firing_cases=0)
     gap_seen = []
